@@ -126,6 +126,7 @@ type c09Case struct {
 	tz     bool
 	vars   string
 	silent bool
+	spare  bool // the document's arrays are cut out of one backing array (h.SpareCap)
 }
 
 func (k *c09Case) texts() (full, p, s string) {
@@ -154,7 +155,7 @@ func checkSplit(c *h.Ctx, k *c09Case) {
 		return
 	}
 	doc := h.Decode(k.doc, k.useNum)
-	if (len(k.doc)+k.split)%3 == 0 {
+	if k.spare || (len(k.doc)+k.split)%3 == 0 {
 		// arrays cut out of one backing array, with spare capacity: a step
 		// that appends to a slice of the document changes what later steps see
 		doc = h.SpareCap(doc)
@@ -573,6 +574,51 @@ func runC09(c *h.Ctx) {
 	// "after a nested subscript last again denotes the outer array": also in
 	// the steps that follow the nested subscript (shared with C14)
 	checkLastScope(c, "outer-last")
+	// arrays that lie next to each other in one backing array (pages cut out of
+	// one slice), several of them reaching the same final step: what a step
+	// appends must not land in the array that follows
+	{
+		docs := []string{`{"rows":[[1,2],[3,4],[5,6]],"all":[0,0,0]}`, `[[1],[2,3],[4,5,6]]`, `{"a":[[{"x":1}],[{"x":2},{"x":3}]],"b":[9,8]}`, `[[[1,2],[3]],[[4],[5,6]]]`, `{"rows":[[],[7],[8,9]]}`}
+		ptxts := []string{`$.rows[*][*]`, `$.rows[0,1,2][*]`, `$.rows[0 to last][*]`, `$.**{1}[*]`, `$.**{1 to 2}[*]`, `$[*][*]`, `$[*][*][*]`, `$.a[*][*].x`, `$.a[*][*]`, `$[0 to last][*]`, `$.rows[*][0 to last]`, `$[*][*] ? (@ > 1)`,
+			`$[*][0 to last]`, `$.rows[*][*].type()`, `$.rows[*] ? (@.size() > 0)[*]`, `$[last,0][*]`, `$.rows[last,0,1][*]`}
+		k := 0
+		for _, d := range docs {
+			for _, pt := range ptxts {
+				for _, lax := range []bool{true, false} {
+					k++
+					if !c.Mine(k) {
+						continue
+					}
+					p, err, pan := h.ParseSafe(map[bool]string{true: "", false: "strict "}[lax] + pt)
+					if err != nil || pan != "" {
+						continue
+					}
+					chain := gen.FromAST(p.AST).Root
+					if exposesOrder(&gen.Path{Root: chain}) && hasMultiMemberObject(h.Decode(d, false)) {
+						continue // the order of the members is open
+					}
+					nsteps := 0
+					for x := chain.Next; x != nil; x = x.Next {
+						nsteps++
+					}
+					for split := 0; split < nsteps; split++ {
+						pfx := chain.Clone()
+						y := pfx
+						for j := 0; j < split; j++ {
+							y = y.Next
+						}
+						y.Next = nil
+						if !lax && containsTopLevelAny(pfx) {
+							continue
+						}
+						for _, useNum := range []bool{false, true} {
+							checkSplit(c, &c09Case{lax: lax, chain: chain, split: split, doc: d, useNum: useNum, vars: stdVars1, spare: true, silent: split%2 == 1})
+						}
+					}
+				}
+			}
+		}
+	}
 	r := c.Rand("c09")
 	g := &gen.G{R: r, C: gen.DefaultCfg()}
 	g.C.Datetime = true
